@@ -149,6 +149,29 @@ DESCR = {
  "C18-H": ("a read-ahead goroutine in handleConnection keeps reading after an upgrade call", "an upgrade call followed by payload, service side"),
  "C19-H": ("unix address stored as absolute path before the '@' test", "service address unix:@name"),
  "C20-H": ("a failing net.FileListener on the selected descriptor is fatal instead of a fallback", "activation variables in effect with a selected descriptor that is not a socket"),
+ "C01-I": ("replies written in 64 KiB pieces, the NUL travels with the last piece (skipped when nothing is left)", "an encoded reply whose length is an exact multiple of 65536"),
+ "C02-I": ("Send discards what the client has buffered before writing a call", "two replies outstanding, coalesced in one read, and a Send between receiving them"),
+ "C03-I": ("receive returns early when the reply has no parameters member, before the continues test", "an intermediate reply of a more-sequence without parameters (Reply(ctx, nil))"),
+ "C04-I": ("last-dot split done with path.Ext (stops at '/')", "a method string with a slash after its last dot"),
+ "C05-I": ("nesting guard whose depth counter leaks on the 'no type here' path", "more than ~500 typeless errors before a typed member, or nesting deeper than 512"),
+ "C06-I": ("duplicate map stores member indexes; presence tested as != 0", "a later member repeating the name of the FIRST member"),
+ "C07-I": ("snake_case field names turned into CamelCase Go names (not injective)", "one struct holding max_size and maxSize (or a_1 and a1)"),
+ "C08-I": ("DispatchError also accepts org.varlink.<Error> short forms: every org.varlink.* error name is rewritten", "an interface under org.varlink.* (e.g. the resolver) declaring InterfaceNotFound / MethodNotFound / InvalidParameter"),
+ "C09-I": ("friendlier message for a label ending in '-' indexes the byte after it", "input ending right after a hyphen in the interface name"),
+ "C10-I": ("'message size limit' through io.LimitReader: a per-connection byte budget", "more than 16 MiB of requests on one connection"),
+ "C11-I": ("EOF with zero bytes after a continues reply reported as success ('end of a monitor sequence')", "server dies exactly on the frame boundary after a continues reply"),
+ "C12-I": ("standard errors fall back to the generic error when the carried name is empty", "InterfaceNotFound / MethodNotFound / InvalidParameter with an empty name"),
+ "C13-I": ("built-in interface no longer in the interfaces map (description kept separately)", "registering an object named org.varlink.service"),
+ "C14-I": ("ReadBytes fast path when bytes are buffered skips deadline and context", "a call and the start of the next frame in one segment, client stalls, serving context cancelled"),
+ "C15-I": ("accept deadline capped by the serving context's deadline", "idle timeout together with a serving context whose deadline passes inside the idle period"),
+ "C16-I": ("replies encoded into a pooled buffer; the encode-error path puts it back twice", "a handler replying an unencodable value, then two connections answered at overlapping times"),
+ "C16-J": ("conncounter converted to sync/atomic except in DoListen's timeout branch", "DoListen with an idle timeout that actually expires after a connection has closed"),
+ "C17-I": ("Read/ReadBytes fast path when bytes are buffered (no deadline, no context)", "start of the next frame buffered with the previous one, peer stalls, context ends"),
+ "C17-J": ("small writes sent inline with only the context's deadline armed", "send buffer full after many small writes, context ended by cancel"),
+ "C18-I": ("ReadBytes discards further delimiter bytes that are already buffered ('double NUL clients')", "upgraded payload starting with 0x00 coalesced with the frame"),
+ "C18-J": ("size-limited frame reader detects 'buffer full' by fragment length", "a frame whose length with the delimiter is an exact multiple of 4096"),
+ "C19-I": ("'@' test moved into a helper written as IndexByte(address,'@') == -1", "a filesystem path containing '@' plus a stale socket at that path"),
+ "C20-I": ("inherited listener asserted to be a *net.UnixListener (SetUnlinkOnClose(false))", "the selected inherited descriptor is a listening TCP socket"),
 }
 
 conf = {}
@@ -192,7 +215,7 @@ for pid in sorted(props):
                 shutil.copy(os.path.join(out, extra), os.path.join(d, extra))
         if os.path.isdir(os.path.join(out, f"{pid}_{v}_demo")):
             shutil.copytree(os.path.join(out, f"{pid}_{v}_demo"), os.path.join(d, "demo")); demo = "demo/run.sh"
-        for nf in (f"{pid}_notes.md", f"{pid}_notes2.md", f"{pid}_notes3.md", f"{pid}_notes4.md"):
+        for nf in (f"{pid}_notes.md", f"{pid}_notes2.md", f"{pid}_notes3.md", f"{pid}_notes4.md", f"{pid}_notes5.md"):
             if os.path.exists(os.path.join(out, nf)):
                 shutil.copy(os.path.join(out, nf), os.path.join(d, "notes.md"))
         what, needs = DESCR.get(key, ("see notes.md", "see notes.md"))
